@@ -62,7 +62,19 @@ def compress(vals, mode):
 
 
 SOURCES = ['imp:n=%(n)d', 'none', 'imp:n,p=%(n)d', 'imp:n=%(n)d imp:p=%(p)d', 'imp:p=%(p)d imp:n=%(n)d',
-           'IMP:N %(n)d', 'imp:n=%(n)d $ imp:n=7']
+           'IMP:N %(n)d', 'imp:n=%(n)d $ imp:n=7',
+           # the cell is a copy of the previous one moved by one slab width; only the listed particle types change
+           'like:imp:n=%(n)d', 'like:imp:n,p=%(n)d', 'like:imp:n=%(n)d imp:p=%(p)d', 'like:imp:p,n=%(n)d',
+           'like:']
+
+
+def per_particle(text, n, p):
+    """importance per particle type given by the IMP keywords in `text`"""
+    out = {}
+    for m in re.finditer(r'imp:([a-z,]+)[ =](\d+)', text.split('$')[0].lower()):
+        for pt in m.group(1).split(','):
+            out[pt] = int(m.group(2))
+    return out
 
 
 def build_n(ncells):
@@ -76,21 +88,30 @@ def build_n(ncells):
         st.expected = {}
         any_none = False
         use_p_card = ch.choose('imp:p-card', [False, True])
+        dicts = []
         for i in range(ncells):
             num = NUMS[i]
             s = src[i]
             card = '%d 0 %d -%d' % (num, i + 1, i + 2)
             if s == 'none':
                 any_none = True
-                imp = max(nvals[i], pvals[i]) if use_p_card else nvals[i]
+                d = {'n': nvals[i]}
+                if use_p_card:
+                    d['p'] = pvals[i]
+            elif s.startswith('like:'):
+                if i == 0 or src[i - 1] == 'none' or src[i - 1].startswith('like:'):
+                    ch.reject('LIKE needs a preceding cell with cell-card importances')
+                but = s[5:] % dict(n=nvals[i], p=pvals[i])
+                card = '%d like %d but trcl=(2 0 0) %s' % (num, NUMS[i - 1], but)
+                d = dict(dicts[i - 1])
+                d.update(per_particle(but, nvals[i], pvals[i]))
             else:
-                card += ' ' + s % dict(n=nvals[i], p=pvals[i])
-                if 'imp:p' in s and '$' not in s:
-                    imp = max(nvals[i], pvals[i])
-                else:
-                    imp = nvals[i]
+                text = s % dict(n=nvals[i], p=pvals[i])
+                card += ' ' + text
+                d = per_particle(text, nvals[i], pvals[i])
+            dicts.append(d)
             st.cells.append(card)
-            st.expected[num] = imp
+            st.expected[num] = max(d.values())
         mode = ch.choose('shorthand', ['expanded', 'R', 'M', 'I', 'all'])
         if any_none:
             st.data.append('imp:n ' + ' '.join(compress(nvals, mode)))
